@@ -39,6 +39,10 @@ def gen(ch, tier):
                 window=ch.pick('window', 1 << 16), wsize=24 if tier == 'quick' else 96, accept=ch.coin('accept', 1, 2),
                 fixup=ch.coin('fixup', 2, 3), dst_key=ch.choice('dstkey', ('right', 'right', 'right', 'wrong', 'missing')))
     plan['split_assoc'] = plan['tgt_ext'] and ch.coin('split', 1, 2)
+    if kind.startswith('sign1') and ch.coin('cert', 1, 4):
+        # signed with the right private key, but the certificate (of the trusted CA) names another node or none: not the key of this source
+        plan['cert'] = ch.choice('certk', ('other-id', 'no-id'))
+        plan['dst_key'] = 'wrong'
     if kind.startswith('foreign'):
         plan['scope'] = ch.choice('scope', ([[0, 1], [-1, 1]], [[0, 1], [-1, 1], [-2, 1]], [[-1, 1]], [[0, 1]], [[-1, 1], [3, 2]], [[0, 1], [-1, 3]], [[0, 1], [-1, 1], [3, 3]], [[-1, 1], [3, 1]]))
         plan['addl'] = ch.coin('addl', 1, 3)
@@ -139,7 +143,9 @@ def _pki(plan):
         return (None, None)
     chain = plan['kind'] == 'sign1-chain'
     trust = {'right': 'right', 'wrong': 'wrong', 'missing': None}[plan['dst_key']]
-    return (dict(sign=True, include_chain=chain, source='dtn://s/'),
+    if plan.get('cert'):
+        trust = 'right'
+    return (dict(sign=True, include_chain=chain, source='dtn://s/', cert=plan.get('cert')),
             dict(sign=False, include_chain=chain, source='dtn://s/', trust=trust, knows_end_cert=not chain))
 
 
@@ -289,7 +295,7 @@ def field_alterations(orig, plan):
 
 def _drive(run, plan, har):
     stats = run.stats
-    cfg = bc.digest({key: plan[key] for key in ('kind', 'plen', 'tgt_ext', 'split_assoc', 'others', 'pri_crc', 'blk_crc', 'dst_key', 'accept') if key in plan} | {'scope': plan.get('scope')})
+    cfg = bc.digest({key: plan[key] for key in ('kind', 'plen', 'tgt_ext', 'split_assoc', 'others', 'pri_crc', 'blk_crc', 'dst_key', 'accept', 'cert') if key in plan} | {'scope': plan.get('scope')})
     kindtag = 'kind.' + ('mac0' if plan['kind'].startswith('mac0') else ('sign1' if plan['kind'].startswith('sign1') else (
         'mac-kw' if plan['kind'] == 'foreign-kw' else 'foreign')))
     stats[kindtag] = 1
